@@ -1258,9 +1258,11 @@ def compile_with_expression(compiler, expr, root, args, body):
             ast.withitem(context_expr=ctx.force_expr, optional_vars=variable)
         )
 
-    if not cbody:
+    if cbody is None:
         cbody = compiler._compile_branch(body)
-        cbody += asty.Assign(expr, targets=[name], value=cbody.force_expr)
+    # (When `cbody` is a nested `with`, its value is that `with`'s
+    # own temporary variable.)
+    cbody += asty.Assign(expr, targets=[name], value=cbody.force_expr)
 
     node = asty.AsyncWith if was_async else asty.With
     ret += node(expr, body=cbody.stmts, items=items)
